@@ -12,7 +12,7 @@ KINDS = {
     'C01': {'dirty_handoff_tx', 'session_shared', 'transaction_split', 'misattributed_result', 'double_checkout',
             'checkout_of_closed'},
     'C02': {'dirty_handoff', 'dirty_handoff_tx', 'unclean_reuse'},
-    'C04': {'too_many_connections', 'leak_at_quiescence', 'no_checkout_error', 'waiter_not_served', 'client_tasks_still_alive',
+    'C04': {'too_many_connections', 'leak_at_quiescence', 'no_checkout_error', 'waiter_not_served', 'waiter_refused', 'client_tasks_still_alive',
             'capacity_lost', 'backend_sessions_exceed'},
     'C10': {'cancel_wrong_target', 'map_entry_after_exit', 'cancel_misdirected',
             'cancel_without_session', 'cancel_lost', 'cancel_not_sent'},
@@ -133,7 +133,8 @@ def last_op_of(steps, client):
 def run_model_checks(v, prop, tier):
     runs = [('design', 'MC_PoolCore_design.cfg', True), ('asbuilt', 'MC_PoolCore_asbuilt.cfg', False),
             ('dev:reset_before_rollback', 'MC_PoolCore_dev_reset_before_rollback.cfg', False),
-            ('dev:timeout_keeps_connection', 'MC_PoolCore_dev_timeout_keeps_connection.cfg', False)]
+            ('dev:timeout_keeps_connection', 'MC_PoolCore_dev_timeout_keeps_connection.cfg', False),
+            ('dev:error_keeps_copy_mode', 'MC_PoolCore_dev_error_keeps_copy_mode.cfg', False)]
     if tier == 'thorough':
         runs.insert(1, ('design_3c', 'MC_PoolCore_design3.cfg', True))
         runs.insert(2, ('design_session', 'MC_PoolCore_session.cfg', True))
